@@ -35,7 +35,7 @@ Section Bridge.
 
   (* a decomposition into k walks gives an integer walk decomposition with at most k walks of positive weight *)
   Theorem decomposition_gives_iwd (P : N -> list node) (wt : N -> Q) : walk_decomposition I P wt ->
-    exists l, iwd E s t (kept_edges I) f l /\ length l <= c_k I.
+    exists l, iwd0 E s t (kept_edges I) f l /\ length l <= c_k I.
   Proof.
     intros (HP & Hw & Hf). set (z := fun i => Z.to_nat (Qfloor (wt i))). set (L := layers (c_k I)).
     assert (Hz : forall i, In i L -> (wt i == qn (z i))%Q).
@@ -55,7 +55,7 @@ Section Bridge.
   Qed.
 
   (* and an integer walk decomposition with k walks is a decomposition of the instance with c_k = k *)
-  Theorem iwd_gives_decomposition (l : list (list node * nat)) : iwd E s t (kept_edges I) f l -> c_k I = length l ->
+  Theorem iwd_gives_decomposition (l : list (list node * nat)) : iwd0 E s t (kept_edges I) f l -> c_k I = length l ->
     exists P wt, walk_decomposition I P wt.
   Proof.
     intros [Hw Hf] Hk. set (P := fun i : N => fst (nth (N.to_nat i) l ([], 0))). set (z := fun i : N => snd (nth (N.to_nat i) l ([], 0))).
@@ -82,7 +82,7 @@ Definition kfdc_with_k (I : kfdc_inst) (k : nat) : kfdc_inst :=
 Lemma kept_edges_no_ignore I : c_ignore I = [] ->
   kept_edges I = kept_of (g_edges (c_graph I)) (g_src (c_graph I)) (g_snk (c_graph I)).
 Proof.
-  intros Hi. unfold kept_edges, kept_of, kfdc_ignore. rewrite Hi, app_nil_r. apply filter_ext_in. intros e He. f_equal.
+  intros Hi. unfold kept_edges, kept_of, kfdc_ignore, is_st. rewrite Hi, app_nil_r. apply filter_ext_in. intros e He. f_equal.
   unfold st_edges. destruct ((fst e =? g_src (c_graph I))%N || (snd e =? g_snk (c_graph I))%N) eqn:Q.
   - apply mem_edge_In. apply filter_In. split; [exact He|exact Q].
   - destruct (mem_edge e (filter (fun e0 => (fst e0 =? g_src (c_graph I))%N || (snd e0 =? g_snk (c_graph I))%N) (g_edges (c_graph I)))) eqn:M; [|reflexivity].
@@ -105,7 +105,7 @@ Proof.
   pose proof (min_wfd_model_correct (g_edges (c_graph I)) (g_src (c_graph I)) (g_snk (c_graph I)) fl kmax Hprem) as H. cbv zeta in H.
   rewrite <- (kept_edges_no_ignore I Hign) in H.
   assert (Hfwd : forall j P wt, walk_decomposition (kfdc_with_k I j) P wt ->
-            exists l, iwd (g_edges (c_graph I)) (g_src (c_graph I)) (g_snk (c_graph I)) (kept_edges I) (fnat fl) l /\ length l <= j).
+            exists l, iwd0 (g_edges (c_graph I)) (g_src (c_graph I)) (g_snk (c_graph I)) (kept_edges I) (fnat fl) l /\ length l <= j).
   { intros j P wt HD. exact (decomposition_gives_iwd (kfdc_with_k I j) (fnat fl) Hint Hflow P wt HD). }
   destruct (min_wfd_model _ _ _ fl kmax) as [k|].
   - destruct H as (H1 & (l & Hl & Hlen) & H3). split; [exact H1|]. split.
